@@ -133,6 +133,27 @@ def find_knn_scans(w: Walker) -> List[KnnScan]:
     return out
 
 
+def report_missing_scan(rep, w: Walker, what: str, pre: str = "") -> bool:
+    """No insertion scan was recognised.  If the function still allocates the k+1-slot buffers and writes a candidate
+    into slot k inside a loop nest, the scan is there but its insertion step is malformed (test negated, step dropped,
+    wrong neighbour slot): that is a violation, reported here, not an unrecognised construct."""
+    bufs = {}
+    for e in w.events:
+        if e.kind == "store" and e.target[0] == "idx" and e.target[1][0] == "alloc" and len(e.loops) >= 2 \
+                and e.target[1][1] in ("numpy.zeros", "numpy.empty") and e.target[1][2]:
+            size, slot = e.target[1][2][0], e.target[2]
+            if lin_eq(_sub(lin(size), lin(slot)), {1: 1}):
+                bufs.setdefault(e.target[1], e)
+    if len(bufs) < 2:
+        return False
+    ev = min(bufs.values(), key=lambda e: e.seq)
+    rep.ev(pre + "KNN-insertion", ev, False,
+           f"{what}: candidates are written into slot k of the k+1-slot buffers, but no loop that moves the new entry "
+           "down while it is smaller than its predecessor (`while cur > 0 and d[cur] < d[cur-1]: swap; cur -= 1`) follows: "
+           "the buffers do not hold the k nearest in ascending order")
+    return True
+
+
 def check_knn_scan(rep, pre: str, scan: KnnScan, graph: Term, allow_self_skip: bool) -> None:
     """graph: the term of the graph whose nodes are the candidates."""
     w = scan.w
